@@ -39,11 +39,11 @@ type half struct {
 	cond     *sync.Cond
 	buf      []byte
 	base     []byte // start of buf's backing array (reused once the reader has drained everything)
-	eof      bool  // writer closed: reader sees EOF after draining
-	rerr     error // reader-side immediate error (local close)
-	werr     error // writer-side error
-	total    int   // bytes accepted so far
-	cutAt    int   // -1: none; otherwise the stream is cut after this many bytes
+	eof      bool   // writer closed: reader sees EOF after draining
+	rerr     error  // reader-side immediate error (local close)
+	werr     error  // writer-side error
+	total    int    // bytes accepted so far
+	cutAt    int    // -1: none; otherwise the stream is cut after this many bytes
 	onCut    func()
 	chunk    func() int // max bytes per Read (nil: unlimited)
 	tap      []byte
